@@ -250,7 +250,13 @@ def rule_setitem(ctx):
             ctx.violated('R4', di, names[idx_clean[0]][1].node, 'the clean-up must look at the axes of the deleted variable', node=q.node)
             continue
         ctx.holds('R4', '__delitem__: delete then clean up the variable\'s axes')
-    # _maybe_delete_axes: per axis
+    # _maybe_delete_axes: per axis.  The structural reading (a flag per candidate, or any(...) over the variables) on trial; the scenario table of the function decides
+    # when the search is written otherwise (for / else, a helper ...)
+    from ..report import on_trial
+    on_trial(ctx, _maybe_delete_structural, [DS + '_maybe_delete_axes'], ('R4',), '_maybe_delete_axes')
+
+
+def _maybe_delete_structural(ctx):
     mi = ctx.fn(DS + '_maybe_delete_axes')
     ev = run(ctx, mi, mode='join', track_assign=True)
     okm = None
